@@ -825,6 +825,7 @@ func (b *Builder) EnumValue(o interface{}, x int) {
 		b.setErr(fmt.Errorf("%T does not support value, only type enum", o))
 	} else {
 		i.val = x
+		i.valSet = true
 	}
 }
 
